@@ -314,5 +314,9 @@ def run(ctx):
     # ---------------------------------------------------------------- C08.ARGS
     from ..rules_common import check_call_arguments
     check_call_arguments(ctx, "C08.ARGS", "C08")
+    from ..rules_common import check_effect_tables
+    check_effect_tables(ctx, "C08")
+    from ..rules_common import check_presence_tests, ARG_SCOPE
+    check_presence_tests(ctx, "C08.PRESENCE", classes=ARG_SCOPE.get("C08", []))
 
 
